@@ -4,7 +4,7 @@ import build
 SRC = ["hx_fmt.c", "dec_common.c", "gen_stream.c", "vh.c", "ref/refdec.c", "ref/synth.c", "ref/check_ref.c", "ref/bcj_ref.c"]
 RULE = ("case = one valid base file of 60-2200 bytes (quick; <= 16 KiB thorough): .xz from the synthesiser or liblzma's "
         "encoders (all checks, 1-3 Blocks, 1-3 Streams with padding, with/without size fields), .lzma (known/unknown size, "
-        "+-end marker), .lz (v0/v1, 1-3 members). For each base file EVERY single-bit flip and EVERY truncation length is "
+        "+-end marker), .lz (v0/v1, 1-3 members); a quarter are .xz files holding incompressible (stored) plaintext of every length residue mod 64 under CRC32/CRC64/SHA-256, so that every bit of every plaintext byte is flipped under every check. For each base file EVERY single-bit flip and EVERY truncation length is "
         "decoded (plus 300 random multi-byte overwrites/insertions/deletions; a quarter of the probes on a handle that "
         "decoded the undamaged file before and was re-initialised without lzma_end, a quarter with the input arriving "
         "in 1-7 byte pieces) by the stream decoder, the threaded decoder "
@@ -30,12 +30,13 @@ def run(ctx):
         "LZMA_CHECK_NONE streams and .lzma payload damage are outside the guarantee (statement); they still run for "
         "the truncation and non-payload rules",
     ]
-    ctx.run_shards(exe, ["--mode", "c05"], 96 if ctx.tier == "quick" else 960, timeout=7200,
+    ctx.run_shards(exe, ["--mode", "c05"], 128 if ctx.tier == "quick" else 1280, timeout=7200,
                    env={"VERIF_CASE_WATCHDOG": "3000"})
     c = ctx.counters
     ctx.exhaustive = False
     ctx.extra_cov["exhaustive_per_base_file"] = True
     ctx.require("base_files", c.get("base_files", 0), 60)
+    ctx.require("base_stored_payload", c.get("base_stored_payload", 0), 15)
     for f in ("0", "1", "2"):
         ctx.require("base_fmt_" + f, c.get("base_fmt_" + f, 0), 3)
     ctx.require("bit_flips", c.get("bit_flips", 0), 100000)
